@@ -7,6 +7,7 @@ Line-protocol glue: not verified.
 import DropshotModel.Proto
 import DropshotModel.Extract
 import DropshotModel.JsonBody
+import DropshotModel.Pagination
 
 open Dropshot Dropshot.Proto Dropshot.Extract
 
@@ -47,6 +48,9 @@ def shape : Nat → Option (List (Bytes × FTy))
   | 17 => some [(b "nonce", .scalar .string)]
   | 18 => some [(b "q", .scalar .string), (b "k", .option (.uint 32))]
   | 19 => some [(b "nonce", .scalar .string), (b "seq", .scalar (.uint 64))]
+  | 20 => some [(b "u", .scalar (.uint 16)), (b "i", .scalar (.int 32)), (b "b", .scalar .bool),
+      (b "c", .scalar .char), (b "e", .scalar (.enum colors))]
+  | 21 => some [(b "min", .option (.uint 32)), (b "kind", .option (.enum colors)), (b "flag", .option .bool)]
   | _ => none
 
 /-! ### Canonical printing (same grammar as `canon` in the harness) -/
@@ -116,8 +120,10 @@ structure Ep where
   queryShape : Option Nat := none
   /-- typed body: (shape, endpoint content type) -/
   body : Option (Nat × BodyCT) := none
-  /-- `raw`, `stream`, `rawreq`, `mp` -/
+  /-- `raw`, `stream`, `rawreq`, `mp`, `page`, `tls` -/
   kind : String := ""
+  /-- `request_body_max_bytes` -/
+  cap : Nat := 4096
 
 def endpoint : String → Option Ep
   | "p3" => some { route := [.lit (b "path"), .var (b "id"), .var (b "name"), .var (b "flag")], pathShape := some 12 }
@@ -132,9 +138,36 @@ def endpoint : String → Option Ep
   | "mp" => some { method := "POST", route := [.lit (b "multipart")], kind := "mp" }
   | "all" =>
     some { method := "POST", route := [.lit (b "all"), .var (b "nonce")], pathShape := some 17, queryShape := some 18, body := some (19, .json) }
+  | "scal" =>
+    some { route := [.lit (b "scal"), .var (b "u"), .var (b "i"), .var (b "b"), .var (b "c"), .var (b "e")], pathShape := some 20 }
+  | "page" => some { route := [.lit (b "page")], kind := "page" }
+  | "bigjson" => some { method := "POST", route := [.lit (b "bigjson")], body := some (16, .json), cap := 262144 }
+  | "bigform" => some { method := "POST", route := [.lit (b "bigform")], body := some (15, .urlEncoded), cap := 262144 }
+  | "tls" => some { route := [.lit (b "tls"), .var (b "nonce")], pathShape := some 17, kind := "tls" }
   | _ => none
 
 def bodyCap : Nat := 4096
+
+/-- `http::Uri` refuses a request target longer than this; hyper answers 414
+itself (no framework error body). -/
+def maxUriLen : Nat := 65534
+
+/-- The paginated endpoint `/page`: `PaginationParams<ScanP, PageSel>` over the
+query pairs (`Pagination.parseParams`, the C14 model), the first-page scan
+parameters through `from_map` on shape 21. -/
+def pageVerdict (query : Bytes) : Option (Option String) :=
+  let scanOf : (Bytes → Option Bytes) → Option Val := fun look =>
+    match shape 21 with
+    | none => none
+    | some fs =>
+      let entries : VarSet := fs.filterMap fun f => (look f.1).map fun v => (f.1, VarVal.str v)
+      match mapDe (.struct fs) entries with
+      | .ok v => some v
+      | .error _ => none
+  match Pagination.parseParams Pagination.SelCodec.json scanOf (parseQuery query) with
+  | .error _ => none
+  | .ok (.first v, _) => some (some (canonVal v))
+  | .ok (.next _, _) => some none
 
 /-- hyper hands header values over without leading and trailing SP / HTAB. -/
 def trimOws (bs : Bytes) : Bytes :=
@@ -248,6 +281,7 @@ def jsonTrailing (l : SvLine) (e : Ep) (payload : Bytes) : Bool :=
 judge JSON by RFC 8259 (the specification) instead of as the code does. -/
 def verdict (l : SvLine) (e : Ep) (payload : Bytes) (strict : Bool) : Verdict :=
   let (path, query) := splitTarget l.target
+  if l.target.length > maxUriLen then .refused 414 else
   match lookupVars e.route path with
   | .badPath => .refused 400
   | .noRoute => .refused 404
@@ -282,7 +316,7 @@ def verdict (l : SvLine) (e : Ep) (payload : Bytes) (strict : Bool) : Verdict :=
           | none => .refused 500
           | some fs =>
             let json := if strict then JsonBody.decodeStrict fs else JsonBody.decode fs
-            match loadBody json (extractQuery (.struct fs)) ect bodyCap hdr payload with
+            match loadBody json (extractQuery (.struct fs)) ect e.cap hdr payload with
             | .error _ => .refused 400
             | .ok v =>
               match pc, qc with
@@ -302,6 +336,17 @@ def verdict (l : SvLine) (e : Ep) (payload : Bytes) (strict : Bool) : Verdict :=
           match multipartBoundary hdr with
           | .error _ => .refused 400
           | .ok bd => if hexB bd == l.extra then .calledAny else .refused 400
+        | none, "page" =>
+          match pageVerdict (query.getD []) with
+          | none => .refused 400
+          | some (some c) => .called c
+          | some none => .calledAny
+        | none, "tls" =>
+          -- the handler reports its peer address with the nonce it was given
+          match mapDe (.struct [(b "nonce", .scalar .string)]) vars with
+          | .ok [(_, .scalar (.str n))] =>
+            .called ("s" ++ hexB (b s!"127.0.0.1:{l.port}|" ++ n))
+          | _ => .refused 400
         | none, _ =>
           match pc, qc with
           | some p, _ => .called p
